@@ -606,6 +606,8 @@ func (hp *HPACK) AppendHeader(dst []byte, hf *HeaderField, store bool) []byte {
 	index, fullMatch = hp.search(hf)
 	if hf.sensible {
 		c = false
+		// never indexed: the name index has a 4-bit prefix (RFC 7541 6.2.3)
+		bits = 4
 		dst = append(dst, 16)
 	} else {
 		if index > 0 { // key and/or value can be used as index
